@@ -21,6 +21,7 @@ import (
 	"regexp"
 	"strconv"
 	"strings"
+	"time"
 )
 
 // ---- model access ----------------------------------------------------------------------
@@ -793,6 +794,22 @@ func (g *goTr) tr(x ast.Expr, inOld bool) string {
 func tryReplay(w *World, o *Options, ob *Obligation, base string, log *strings.Builder) (string, bool) {
 	var blocks []string
 	var path string
+	// values of package reflect (reflect.Type, reflect.Value) cannot be rebuilt from a model: the obligations of
+	// the reflection walk are reported without a replayed input instead of spending the model queries
+	if e := ob.enc; e != nil && e.fn != nil {
+		for _, p := range e.fn.Params {
+			if strings.Contains(p.Type().String(), "reflect.") {
+				fmt.Fprintf(log, "replay: parameter %s has type %s; values of package reflect cannot be rebuilt from a model\n", p.Name(), p.Type())
+				return "", false
+			}
+		}
+	}
+	// budget per obligation: the model queries of a quantified obligation can each run into the solver limit
+	budget := 90 * time.Second
+	if o.tier == "thorough" {
+		budget = 300 * time.Second
+	}
+	start := time.Now()
 	// first preference: a model in which every callee SUCCEEDS (error results nil) -- contracts are
 	// usually exact about success and loose about which error, so such a model is the most likely to
 	// be realised by the real callees
@@ -815,6 +832,10 @@ func tryReplay(w *World, o *Options, ob *Obligation, base string, log *strings.B
 		}
 	}
 	for attempt := 1; attempt <= 4; attempt++ {
+		if time.Since(start) > budget {
+			fmt.Fprintf(log, "replay: budget of %s used up; no further models requested\n", budget)
+			break
+		}
 		p, ok, blk := tryReplayOnce(w, o, ob, base, log, blocks)
 		if p != "" {
 			path = p
